@@ -1339,13 +1339,9 @@ class Tensor:
             self.clear_graph()
             return
 
-        topo_sorted_tensors: Deque["Tensor"] = deque([])
-        seen: Set[int] = set()
-
-        collect_all_tensors_and_clear_grads(self, seen, topo_sorted_tensors)
-
-        # don't set self._grad yet because there is a grad-clearing step that
-        # occurs during graph creation
+        # the seed is validated before the graph is traversed (the traversal discards
+        # the gradients of all upstream tensors); it is only stored afterwards, because
+        # that grad-clearing step would discard it too
         if grad is not None:
             # `self` is guaranteed to be a tensor of floats
             # so we can simply cast `grad` to be the same dtype
@@ -1371,6 +1367,11 @@ class Tensor:
                     )
         else:
             _grad = np.full_like(self.data, fill_value=1.0)
+
+        topo_sorted_tensors: Deque["Tensor"] = deque([])
+        seen: Set[int] = set()
+
+        collect_all_tensors_and_clear_grads(self, seen, topo_sorted_tensors)
 
         self._grad = _grad
 
